@@ -181,6 +181,8 @@ def run(ck):
         _, v = local_var(fn, d["decl"])
         n = const_int(a[1]) if len(a) > 1 else None
         return v, n, d
+    if S._crc is None:
+        predicted_crc(ck, S, fn, word_src(w1))
     crc_call = [n for n in fn.calls() if n.get("fn") == S.crc.id]
     for idx, (w, what) in enumerate(((w1, "CRC-32"), (w2, "ISIZE"))):
         v, nbytes, d = word_src(w)
@@ -664,3 +666,35 @@ def crc_by_cases(ck, S, RID):
           "the per-byte update is not the CRC-32 step: %s%s" % ("; ".join(bad), " — bytes >= 0x80 are sign-extended (plain char) before they are folded in" if all("byte 0x8" in x or "byte 0x9" in x or "byte 0xa" in x or "byte 0xb" in x or "byte 0xc" in x or "byte 0xd" in x or "byte 0xe" in x or "byte 0xf" in x for x in bad) else ""),
           key="calculateCRC32|update")
     return not bad
+
+
+
+def predicted_crc(ck, S, fn, ws):
+    """the trailer's CRC-32 is not computed from the file that is compressed but handed in (a parameter, a member kept up to date while writing): it then
+    describes the bytes the sink BELIEVES it wrote. Definite when the bytes fed to that checksum are encoded differently from the bytes written."""
+    F = ck.facts
+    v, _, d = ws
+    if v is None:
+        return
+    init = skip_copies(v.get("init"))
+    src = deref_local(fn, init["args"][0]) if (is_call(init, "qToLittleEndian") and init.get("args")) else deref_local(fn, init)
+    src = skip_copies(src) if isinstance(src, dict) else None
+    if not (isinstance(src, dict) and src.get("k") == "ref" and src.get("dk") == "param"):
+        return
+    # encoders of the record at the write site and wherever a checksum-like member is updated from the record
+    def encoders(f):
+        return {strip_tmpl(x.get("callee") or "").split("::")[-1] for x in f.all_nodes() if x.get("k") == "call" and strip_tmpl(x.get("callee") or "").split("::")[-1] in
+                ("toUtf8", "toLocal8Bit", "toLatin1") and is_call(skip_copies(x.get("obj") or {}), "QtLogger::LogMessage::formattedMessage")}
+    written = encoders(S.io_send)
+    fed = set()
+    site = None
+    for f in S.flat_units():
+        for n in f.all_nodes():
+            if n.get("k") == "binop" and n.get("op") == "=" and skip_copies(n.get("lhs") or {}).get("k") == "member" and "crc" in (skip_copies(n["lhs"]).get("name") or "").lower():
+                e_ = encoders(f)
+                if e_:
+                    fed |= e_
+                    site = site or (f, n)
+    if fed and written and fed != written:
+        ck.ob("C08-O3", sitestr(site[0], site[1]), False, "the CRC-32 of the trailer is not computed from the file that is compressed but kept up to date while writing, from %s() of the record - the file receives %s(): "
+              "with a locale codec that is not UTF-8 and a non-ASCII character the checksum describes other bytes than the archive holds" % ("/".join(sorted(fed)), "/".join(sorted(written))), key="compressFile|predicted-crc")
